@@ -66,6 +66,12 @@ func main() {
 				if d.Scenario != nil {
 					runAPICase(ctx, w, farm, d.Scenario, d.Seed, o.Tier)
 				}
+			case "shape": // a read shape reported by the counting datastore: measure again on fresh scenarios
+				r := rec.NewRand(o.Seed)
+				for i := 0; i < 60; i++ {
+					rr := r.Fork()
+					runAPICase(ctx, w, farm, scen.Generate(rr, scen.DefaultOpts()), rr.Uint64(), o.Tier)
+				}
 			}
 		}
 		return
